@@ -7,7 +7,8 @@ import tlsmem
 
 def sizes(tier, rng):
     base = [0, 1, 2, 100, 8191, 8192, 8193, 16383, 16384, 16385, 16386, 24576, 32767, 32768, 32769, 65535, 65536, 65537, 131072, 1 << 20]
-    if tier != "quick": base += [3 << 20, 8 << 20] + [rng.randint(0, 200000) for _ in range(60)]
+    base += [3 << 20]
+    if tier != "quick": base += [8 << 20] + [rng.randint(0, 200000) for _ in range(60)]
     else: base += [rng.randint(0, 100000) for _ in range(10)]
     return base
 
@@ -18,14 +19,19 @@ def mk_body(rng, n, kind):
     s = ("héllo wörld 世界 " * (n // 10 + 1))
     return s[:n]
 
-def pyopenssl_fetch(handler):
+def pyopenssl_fetch(handler, slow=False):
     from nauyaca.server.protocol import GeminiServerProtocol
     async def go():
-        pair = tlsmem.Pair(lambda: GeminiServerProtocol(handler))
+        pair = tlsmem.Pair(lambda: GeminiServerProtocol(handler), flow=slow)
         pair.handshake()
         pair.client_send(b"gemini://localhost/\r\n"); pair.to_server()
         for _ in range(4): await asyncio.sleep(0)
-        got = pair.client_read_all()
+        if slow:
+            got = await pair.client_read_slowly()
+            for _ in range(4): await asyncio.sleep(0)
+            got = await pair.client_read_slowly()
+        else:
+            got = pair.client_read_all()
         ip = pair.server.inner_protocol
         if ip is not None and ip.timeout_handle: ip.timeout_handle.cancel()
         pair.server._cancel_handshake_timer() if hasattr(pair.server, "_cancel_handshake_timer") else None
@@ -98,9 +104,11 @@ def run(tier, seed):
                 mime = "application/octet-stream" if kind == "bytes" else "text/plain"
                 expected = ("20 %s\r\n" % mime).encode() + (body if kind == "bytes" else body.encode("utf-8"))
                 handler = lambda req, b=body, m=mime: GeminiResponse(20, m, b)
-                for backend in ("pyopenssl", "stdlib"):
+                for backend in ("pyopenssl", "stdlib") + (("pyopenssl-slow-reader",) if n >= 65536 else ()):
                     if backend == "pyopenssl":
                         got, eof, closed, writes = pyopenssl_fetch(handler)
+                    elif backend == "pyopenssl-slow-reader":
+                        got, eof, closed, writes = pyopenssl_fetch(handler, slow=True)
                     else:
                         got, eof, closed = stdlib_fetch(handler, sctx); writes = []
                     res.evaluations += 1
